@@ -568,6 +568,17 @@ func noteLeafWait(name string, took, deadline time.Duration, what string) {
 	}
 }
 
+// noteTimeoutCase counts a case in which a real search / context sat out its deadline although
+// every target had answered (already reported under its own oracle key).
+func noteTimeoutCase() {
+	leafHang.Lock()
+	leafHang.n++
+	if leafHang.desc == "" {
+		leafHang.desc = "-"
+	}
+	leafHang.Unlock()
+}
+
 // takeLeafHang returns and clears the record.
 func takeLeafHang() (int, string) {
 	leafHang.Lock()
